@@ -10,7 +10,7 @@ use synth_utils::ribbon_controller::{sample_rate_to_capacity, RibbonController};
 /// the ten rates every run covers, smallest to largest buffer
 pub const RATES: [u32; 10] = [100, 250, 1000, 3000, 10_000, 22_050, 44_100, 48_000, 96_000, 192_000];
 /// all instantiated sample rates (one const-generic instance each)
-pub const ALL_RATES: [u32; 70] = [100, 125, 200, 250, 300, 400, 500, 600, 700, 750, 800, 900, 1000, 1200, 1500, 2000, 2500, 3000, 3500, 4000, 4500, 5000, 6000, 7000, 8000, 9000, 10000, 11025, 12000, 14000, 15000, 16000, 18000, 20000, 22050, 24000, 25000, 28000, 30000, 32000, 35000, 36000, 40000, 44100, 45000, 48000, 50000, 56000, 60000, 64000, 70000, 72000, 75000, 80000, 88200, 90000, 96000, 100000, 110000, 112000, 120000, 125000, 128000, 140000, 150000, 160000, 176400, 180000, 190000, 192000];
+pub const ALL_RATES: [u32; 592] = [100, 125, 200, 250, 300, 400, 500, 600, 700, 750, 800, 900, 1000, 1200, 1500, 2000, 2500, 3000, 3500, 4000, 4500, 5000, 5500, 6000, 6500, 7000, 7500, 8000, 8500, 9000, 9500, 10000, 10500, 11000, 11025, 11500, 12000, 12345, 12500, 13000, 13500, 14000, 14500, 15000, 15500, 16000, 16500, 17000, 17500, 18000, 18500, 19000, 19500, 20000, 20500, 21000, 21500, 22000, 22050, 22500, 23000, 23500, 24000, 24500, 25000, 25500, 26000, 26500, 27000, 27500, 28000, 28500, 29000, 29500, 30000, 30500, 31000, 31250, 31500, 32000, 32500, 33000, 33500, 34000, 34500, 35000, 35500, 36000, 36500, 37000, 37500, 38000, 38500, 39000, 39500, 40000, 40500, 41000, 41500, 42000, 42500, 43000, 43500, 44000, 44100, 44500, 45000, 45500, 46000, 46500, 47000, 47500, 48000, 48500, 49000, 49500, 50000, 50500, 51000, 51500, 52000, 52500, 53000, 53500, 54000, 54500, 55000, 55500, 56000, 56500, 57000, 57500, 58000, 58500, 59000, 59500, 60000, 60500, 61000, 61500, 62000, 62500, 63000, 63500, 64000, 64500, 65000, 65500, 65536, 66000, 66500, 67000, 67500, 68000, 68500, 69000, 69500, 70000, 70500, 71000, 71500, 72000, 72500, 73000, 73500, 74000, 74500, 75000, 75500, 76000, 76500, 77000, 77500, 78000, 78500, 79000, 79500, 80000, 80500, 81000, 81500, 82000, 82500, 83000, 83500, 84000, 84500, 85000, 85500, 86000, 86500, 87000, 87500, 88000, 88200, 88500, 89000, 89500, 90000, 90500, 91000, 91500, 92000, 92500, 93000, 93500, 94000, 94500, 95000, 95500, 96000, 96500, 97000, 97500, 98000, 98500, 99000, 99500, 100000, 100500, 101000, 101500, 102000, 102500, 103000, 103500, 104000, 104500, 105000, 105500, 106000, 106500, 107000, 107500, 108000, 108500, 109000, 109500, 110000, 110500, 111000, 111500, 112000, 112500, 113000, 113500, 114000, 114500, 115000, 115500, 116000, 116500, 117000, 117500, 118000, 118500, 119000, 119500, 120000, 120500, 121000, 121500, 122000, 122500, 123000, 123500, 124000, 124500, 125000, 125500, 126000, 126500, 127000, 127500, 128000, 128500, 129000, 129500, 130000, 130500, 131000, 131500, 132000, 132500, 133000, 133500, 134000, 134500, 135000, 135500, 136000, 136500, 137000, 137500, 138000, 138500, 139000, 139500, 140000, 140500, 141000, 141500, 142000, 142500, 143000, 143500, 144000, 144500, 145000, 145500, 146000, 146500, 147000, 147500, 148000, 148500, 149000, 149500, 150000, 150500, 151000, 151500, 152000, 152500, 153000, 153500, 154000, 154500, 155000, 155500, 156000, 156500, 157000, 157500, 158000, 158500, 159000, 159500, 160000, 160500, 161000, 161500, 162000, 162500, 163000, 163500, 164000, 164500, 165000, 165500, 166000, 166500, 167000, 167500, 168000, 168500, 169000, 169500, 170000, 170500, 171000, 171500, 172000, 172500, 173000, 173500, 174000, 174500, 175000, 175500, 176000, 176400, 176500, 177000, 177500, 178000, 178500, 179000, 179500, 180000, 180500, 181000, 181500, 182000, 182500, 183000, 183500, 184000, 184500, 185000, 185500, 186000, 186500, 187000, 187500, 188000, 188500, 189000, 189500, 190000, 190500, 191000, 191500, 192000, 192500, 193000, 193500, 194000, 194500, 195000, 195500, 196000, 196500, 197000, 197500, 198000, 198500, 199000, 199500, 200000, 200500, 201000, 201500, 202000, 202500, 203000, 203500, 204000, 204500, 205000, 205500, 206000, 206500, 207000, 207500, 208000, 208500, 209000, 209500, 210000, 210500, 211000, 211500, 212000, 212500, 213000, 213500, 214000, 214500, 215000, 215500, 216000, 216500, 217000, 217500, 218000, 218500, 219000, 219500, 220000, 220500, 221000, 221500, 222000, 222500, 223000, 223500, 224000, 224500, 225000, 225500, 226000, 226500, 227000, 227500, 228000, 228500, 229000, 229500, 230000, 230500, 231000, 231500, 232000, 232500, 233000, 233500, 234000, 234500, 235000, 235500, 236000, 236500, 237000, 237500, 238000, 238500, 239000, 239500, 240000, 240500, 241000, 241500, 242000, 242500, 243000, 243500, 244000, 244500, 245000, 245500, 246000, 246500, 247000, 247500, 248000, 248500, 249000, 249500, 250000, 250500, 251000, 251500, 252000, 252500, 253000, 253500, 254000, 254500, 255000, 255500, 256000, 256500, 257000, 257500, 258000, 258500, 259000, 259500, 260000, 260500, 261000, 261500, 262000, 262500, 263000, 263500, 264000, 264500, 265000, 265500, 266000, 266500, 267000, 267500, 268000, 268500, 269000, 269500, 270000, 270500, 271000, 271500, 272000, 272500, 273000, 273500, 274000, 274500, 275000, 275500, 276000, 276500, 277000, 277500, 278000, 278500, 279000, 279500, 280000, 280500, 281000, 281500, 282000, 282500, 283000, 283500, 284000, 284500, 285000, 285500, 286000];
 
 pub trait Rib {
     fn poll(&mut self, x: f32);
@@ -48,7 +48,7 @@ macro_rules! mk {
 }
 
 pub fn make(rate: u32, softpot: f32, dropper: f32, pullup: f32) -> Option<Box<dyn Rib>> {
-    mk!(rate, softpot, dropper, pullup; 100, 125, 200, 250, 300, 400, 500, 600, 700, 750, 800, 900, 1000, 1200, 1500, 2000, 2500, 3000, 3500, 4000, 4500, 5000, 6000, 7000, 8000, 9000, 10000, 11025, 12000, 14000, 15000, 16000, 18000, 20000, 22050, 24000, 25000, 28000, 30000, 32000, 35000, 36000, 40000, 44100, 45000, 48000, 50000, 56000, 60000, 64000, 70000, 72000, 75000, 80000, 88200, 90000, 96000, 100000, 110000, 112000, 120000, 125000, 128000, 140000, 150000, 160000, 176400, 180000, 190000, 192000)
+    mk!(rate, softpot, dropper, pullup; 100, 125, 200, 250, 300, 400, 500, 600, 700, 750, 800, 900, 1000, 1200, 1500, 2000, 2500, 3000, 3500, 4000, 4500, 5000, 5500, 6000, 6500, 7000, 7500, 8000, 8500, 9000, 9500, 10000, 10500, 11000, 11025, 11500, 12000, 12345, 12500, 13000, 13500, 14000, 14500, 15000, 15500, 16000, 16500, 17000, 17500, 18000, 18500, 19000, 19500, 20000, 20500, 21000, 21500, 22000, 22050, 22500, 23000, 23500, 24000, 24500, 25000, 25500, 26000, 26500, 27000, 27500, 28000, 28500, 29000, 29500, 30000, 30500, 31000, 31250, 31500, 32000, 32500, 33000, 33500, 34000, 34500, 35000, 35500, 36000, 36500, 37000, 37500, 38000, 38500, 39000, 39500, 40000, 40500, 41000, 41500, 42000, 42500, 43000, 43500, 44000, 44100, 44500, 45000, 45500, 46000, 46500, 47000, 47500, 48000, 48500, 49000, 49500, 50000, 50500, 51000, 51500, 52000, 52500, 53000, 53500, 54000, 54500, 55000, 55500, 56000, 56500, 57000, 57500, 58000, 58500, 59000, 59500, 60000, 60500, 61000, 61500, 62000, 62500, 63000, 63500, 64000, 64500, 65000, 65500, 65536, 66000, 66500, 67000, 67500, 68000, 68500, 69000, 69500, 70000, 70500, 71000, 71500, 72000, 72500, 73000, 73500, 74000, 74500, 75000, 75500, 76000, 76500, 77000, 77500, 78000, 78500, 79000, 79500, 80000, 80500, 81000, 81500, 82000, 82500, 83000, 83500, 84000, 84500, 85000, 85500, 86000, 86500, 87000, 87500, 88000, 88200, 88500, 89000, 89500, 90000, 90500, 91000, 91500, 92000, 92500, 93000, 93500, 94000, 94500, 95000, 95500, 96000, 96500, 97000, 97500, 98000, 98500, 99000, 99500, 100000, 100500, 101000, 101500, 102000, 102500, 103000, 103500, 104000, 104500, 105000, 105500, 106000, 106500, 107000, 107500, 108000, 108500, 109000, 109500, 110000, 110500, 111000, 111500, 112000, 112500, 113000, 113500, 114000, 114500, 115000, 115500, 116000, 116500, 117000, 117500, 118000, 118500, 119000, 119500, 120000, 120500, 121000, 121500, 122000, 122500, 123000, 123500, 124000, 124500, 125000, 125500, 126000, 126500, 127000, 127500, 128000, 128500, 129000, 129500, 130000, 130500, 131000, 131500, 132000, 132500, 133000, 133500, 134000, 134500, 135000, 135500, 136000, 136500, 137000, 137500, 138000, 138500, 139000, 139500, 140000, 140500, 141000, 141500, 142000, 142500, 143000, 143500, 144000, 144500, 145000, 145500, 146000, 146500, 147000, 147500, 148000, 148500, 149000, 149500, 150000, 150500, 151000, 151500, 152000, 152500, 153000, 153500, 154000, 154500, 155000, 155500, 156000, 156500, 157000, 157500, 158000, 158500, 159000, 159500, 160000, 160500, 161000, 161500, 162000, 162500, 163000, 163500, 164000, 164500, 165000, 165500, 166000, 166500, 167000, 167500, 168000, 168500, 169000, 169500, 170000, 170500, 171000, 171500, 172000, 172500, 173000, 173500, 174000, 174500, 175000, 175500, 176000, 176400, 176500, 177000, 177500, 178000, 178500, 179000, 179500, 180000, 180500, 181000, 181500, 182000, 182500, 183000, 183500, 184000, 184500, 185000, 185500, 186000, 186500, 187000, 187500, 188000, 188500, 189000, 189500, 190000, 190500, 191000, 191500, 192000, 192500, 193000, 193500, 194000, 194500, 195000, 195500, 196000, 196500, 197000, 197500, 198000, 198500, 199000, 199500, 200000, 200500, 201000, 201500, 202000, 202500, 203000, 203500, 204000, 204500, 205000, 205500, 206000, 206500, 207000, 207500, 208000, 208500, 209000, 209500, 210000, 210500, 211000, 211500, 212000, 212500, 213000, 213500, 214000, 214500, 215000, 215500, 216000, 216500, 217000, 217500, 218000, 218500, 219000, 219500, 220000, 220500, 221000, 221500, 222000, 222500, 223000, 223500, 224000, 224500, 225000, 225500, 226000, 226500, 227000, 227500, 228000, 228500, 229000, 229500, 230000, 230500, 231000, 231500, 232000, 232500, 233000, 233500, 234000, 234500, 235000, 235500, 236000, 236500, 237000, 237500, 238000, 238500, 239000, 239500, 240000, 240500, 241000, 241500, 242000, 242500, 243000, 243500, 244000, 244500, 245000, 245500, 246000, 246500, 247000, 247500, 248000, 248500, 249000, 249500, 250000, 250500, 251000, 251500, 252000, 252500, 253000, 253500, 254000, 254500, 255000, 255500, 256000, 256500, 257000, 257500, 258000, 258500, 259000, 259500, 260000, 260500, 261000, 261500, 262000, 262500, 263000, 263500, 264000, 264500, 265000, 265500, 266000, 266500, 267000, 267500, 268000, 268500, 269000, 269500, 270000, 270500, 271000, 271500, 272000, 272500, 273000, 273500, 274000, 274500, 275000, 275500, 276000, 276500, 277000, 277500, 278000, 278500, 279000, 279500, 280000, 280500, 281000, 281500, 282000, 282500, 283000, 283500, 284000, 284500, 285000, 285500, 286000)
 }
 
 #[derive(Clone, Copy, Debug)]
@@ -229,7 +229,37 @@ pub fn execute(h: &History, want: &str, rep: &mut Report) -> Option<Violation> {
                     _ => unreachable!(),
                 };
                 let mut nr = if let Op::Rand(s, _, _, _) = op { Some(Rng::new(*s)) } else { None };
-                for k in 1..=n {
+                // a very long run of one constant in-range sample: once the capture window is full of it the
+                // reference is at a fixed point, so the middle part is fed to the real controller only
+                let ff_head = 2 * cap as u64 + l_need + 100;
+                let ff_tail = cap as u64 + 50;
+                let fast_forward = matches!(op, Op::Poll(_, _)) && n > 4 * (ff_head + ff_tail) && n > 2_000_000;
+                let mut k = 0u64;
+                while k < n {
+                    k += 1;
+                    if fast_forward && k == ff_head + 1 {
+                        if let Op::Poll(x, _) = op {
+                            let skip = n - ff_head - ff_tail;
+                            let xx = *x;
+                            if ((xx as f64) < b) == pressing || !pressing {
+                                call!(
+                                    {
+                                        for _ in 0..skip {
+                                            rib.poll(xx);
+                                        }
+                                    },
+                                    i,
+                                    Some(k)
+                                );
+                                n_eval += skip;
+                                if (xx as f64) < b {
+                                    run += skip;
+                                }
+                                rep.count("ribbon.fast_forwarded_polls", skip);
+                                k += skip;
+                            }
+                        }
+                    }
                     let x: f32 = match op {
                         Op::Poll(x, _) => *x,
                         Op::Rand(_, _, lo, hi) => nr.as_mut().unwrap().uniform(*lo as f64, *hi as f64) as f32,
@@ -615,12 +645,19 @@ fn judge_probe(cfg: &Cfg, samples: &[f32], j: usize, delta: f32, region: Region)
 pub fn probes(ctx: &Ctx, rates: &[u32]) -> Report {
     let small = ctx.tier == Tier::Small;
     let per_rate = ctx.budget(1, 4, 60) as usize;
-    par_shards(ctx, rates.len() * per_rate, |shard| {
+    // the big buffers first: they dominate the wall time; fewer repetitions for them
+    let mut jobs: Vec<(u32, usize)> = Vec::new();
+    for rate in rates.iter().rev() {
+        let n = if *rate <= 20_000 || RATES.contains(rate) { per_rate } else { per_rate.min(2) };
+        for k in 0..n {
+            jobs.push((*rate, k));
+        }
+    }
+    par_shards(ctx, jobs.len(), |shard| {
         let mut rep = Report::new();
-        // the big buffers first: they dominate the wall time
-        let rate = rates[rates.len() - 1 - shard / per_rate];
-        let mut r = Rng::derive(ctx.seed, "ribbon.probes", rate as u64 * 1000 + (shard % per_rate) as u64);
-        for rep_i in (shard % per_rate)..(shard % per_rate + 1) {
+        let (rate, rep_i0) = jobs[shard];
+        let mut r = Rng::derive(ctx.seed, "ribbon.probes", rate as u64 * 1000 + rep_i0 as u64);
+        for rep_i in rep_i0..(rep_i0 + 1) {
             let mut cfg = pick_cfg(&mut r, &[rate]);
             if rep_i == 0 {
                 cfg = Cfg { rate, softpot: 20e3, dropper: 820.0, pullup: 1e6 };
@@ -711,7 +748,7 @@ pub fn run(ctx: &Ctx, prop: &str) -> Report {
         } else {
             // every odd-looking rate that is cheap (small buffers), and a rotating sample of the expensive ones
             v.extend(others.iter().copied().filter(|x| *x <= 20_000));
-            for _ in 0..8 {
+            for _ in 0..12 {
                 let x = *rr.pick(&others);
                 if !v.contains(&x) {
                     v.push(x);
@@ -729,11 +766,17 @@ pub fn run(ctx: &Ctx, prop: &str) -> Report {
     };
     let t0 = std::time::Instant::now();
     // (a) every selected rate gets its own histories, strict and sparse polling, tap trains and mixed presses
-    let per_rate = ctx.budget(2, 6, 40) as usize;
-    let r = par_shards(ctx, rates.len() * per_rate, |job| {
+    // (rate, k) jobs: more histories on the small buffers, a few on the big ones; the big ones first
+    let mut jobs: Vec<(u32, usize)> = Vec::new();
+    for rate in rates.iter().rev() {
+        let n = if *rate <= 20_000 { ctx.budget(2, 6, 40) } else if RATES.contains(rate) { ctx.budget(2, 6, 12) } else { ctx.budget(2, 4, 4) } as usize;
+        for k in 0..n {
+            jobs.push((*rate, k));
+        }
+    }
+    let r = par_shards(ctx, jobs.len(), |job| {
         let mut rep = Report::new();
-        let rate = rates[rates.len() - 1 - job / per_rate];
-        let k = job % per_rate;
+        let (rate, k) = jobs[job];
         let mut r = Rng::derive(ctx.seed, "ribbon.per_rate", rate as u64 * 1000 + k as u64);
         let strict = k % 2 == 0;
         let h = if k % 3 == 0 { gen_tap_train(&mut r, &[rate], strict) } else { gen_history(&mut r, &[rate], strict, if small { 4 } else { 8 }) };
@@ -766,6 +809,27 @@ pub fn run(ctx: &Ctx, prop: &str) -> Report {
         rep
     });
     stage("ribbon.very_long_creeping_press", r, &mut rep, t0);
+    if !small {
+        // one contact lasting 2^24 (quick) / 2^31 and 2^32 (thorough) samples on the smallest buffers
+        let t0 = std::time::Instant::now();
+        let mut lens: Vec<u64> = vec![(1 << 24) + 3];
+        if ctx.tier == Tier::Thorough {
+            lens.extend([(1u64 << 31) + 5, (1 << 32) + 5]);
+        }
+        let jobs: Vec<(u32, u64)> = lens.iter().flat_map(|l| [(100u32, *l), (250, *l)]).collect();
+        let r = par_shards(ctx, jobs.len(), |j| {
+            let mut rep = Report::new();
+            let (rate, len) = jobs[j];
+            let cfg = Cfg { rate, softpot: 20e3, dropper: 820.0, pullup: 1e6 };
+            let bb = cfg.boundary() as f32;
+            let ops = vec![Op::Poll(0.25 * bb, 50), Op::Poll(1.0, 2), Op::Poll(0.75 * bb, len), Op::ReadPressed, Op::Poll(0.5 * bb, 40), Op::Poll(1.0, 2), Op::ReadReleased, Op::Poll(0.1 * bb, 30), Op::Poll(1.0, 1)];
+            let h = History { cfg, strict: false, ops };
+            run_and_record(&h, prop, &mut rep, false);
+            rep.count("ribbon.contacts_longer_than_2pow24", 1);
+            rep
+        });
+        stage("ribbon.extremely_long_contact", r, &mut rep, t0);
+    }
     // (a3) more than 2^16 presses and releases on the smallest buffers
     if !small {
         let t0 = std::time::Instant::now();
